@@ -1,5 +1,6 @@
-CONSTANTS CliInit = 2 SrvMax = 2 MaxHist = 2 MaxSteps = 2 Window = 1 CliStart = "none" KeepLog = TRUE
+CONSTANTS CliInit = 2 SrvMax = 2 MaxHist = 2 MaxSteps = 2 Window = 1 CliStart = "none" KeepLog = TRUE Faults = TRUE
 SPECIFICATION Spec
 VIEW view
+PROPERTY FailAtomic
 INVARIANTS SyncCorrect VersionOk Consistent NoStaleSession Emit
 CHECK_DEADLOCK FALSE
